@@ -642,6 +642,61 @@ def ref_assembly(program: Dict[str, Any]) -> Tuple[models.Assembly, List[str]]:
     return models.Assembly(blocks), names
 
 
+def scale_geo(geo: Dict[str, Any], s: float) -> Dict[str, Any]:
+    """the same model in other units (a part a few tenths of a millimetre across, modelled in metres):
+    points, curve data and prescribed cell sizes times s"""
+    g = dict(geo)
+    g["points"] = {k: [round(x * s, 12) for x in v] for k, v in geo["points"].items()}
+    cv = {}
+    for k, c in geo.get("curved", {}).items():
+        c = dict(c)
+        c["data"] = [round(x * s, 12) for x in c["data"]] if c["kind"] == "arc" else [[round(x * s, 12) for x in p] for p in c["data"]]
+        cv[k] = c
+    g["curved"] = cv
+    chops = []
+    for ch in geo["chops"]:
+        secs = []
+        for sc in ch["sections"]:
+            sc = dict(sc)
+            for key in ("start_size", "end_size"):
+                if sc.get(key) is not None:
+                    sc[key] = sc[key] * s
+            secs.append(sc)
+        chops.append(dict(ch, sections=secs))
+    g["chops"] = chops
+    g["meta"] = dict(geo.get("meta", {}), scale=s)
+    return g
+
+
+def edge_geometry_written(program: Dict[str, Any], parsed) -> Optional[Dict[frozenset, float]]:
+    """Length of every physical edge as the written file describes it (what blockMesh will build):
+    chord, unless the file's edges section has an arc or polyline between the two vertices."""
+    vmap = map_vertices(parsed, program)
+    inv = {v: k for k, v in vmap.items()}
+    pts = program["points"]
+    out: Dict[frozenset, float] = {}
+    for op in program["ops"]:
+        if op["op"] != "hex":
+            continue
+        c = op["corners"]
+        for (u, v) in hexref.EDGES12:
+            key = frozenset((c[u], c[v]))
+            if key not in out and len(key) == 2:
+                out[key] = models.dist(pts[c[u]], pts[c[v]])
+    for e in parsed.edges:
+        p, q = inv.get(e["v"][0]), inv.get(e["v"][1])
+        if p is None or q is None:
+            return None
+        key = frozenset((p, q))
+        if e["kind"] == "arc":
+            out[key] = models.arc_length(pts[p], pts[q], e["point"])
+        elif e["kind"] == "polyLine":
+            out[key] = models.polyline_length(pts[p], pts[q], e["points"])
+        else:
+            return None
+    return out
+
+
 def edge_geometry(program: Dict[str, Any]) -> Dict[frozenset, float]:
     """Reference length of every physical edge (straight unless some block declares a curve)."""
     pts = program["points"]
@@ -1053,6 +1108,13 @@ def oracle_sizes(program, asm: models.Assembly, names, verdict, res: RunResult, 
     if res.outcome != "ok" or parsed is None or len(parsed.blocks) != len(names):
         return out, stats
     elen = edge_geometry(program)
+    if program.get("meta", {}).get("scale"):
+        # a model in very small units: the library may leave out a curve it takes for straight (absolute
+        # tolerance); sizes are judged on the geometry the file describes
+        elen = edge_geometry_written(program, parsed)
+        if elen is None:
+            return out, stats
+        stats["scaled_models"] = 1
     pts = program["points"]
     dec = decode_sizes(program, names, parsed, elen)
     per_edge: Dict[frozenset, List[Tuple[str, int, int, List[float], bool]]] = {}
@@ -1184,7 +1246,9 @@ def oracle_sizes(program, asm: models.Assembly, names, verdict, res: RunResult, 
             ref = s.get(pres)
             if ref is None:
                 ref = src_vals[0] if src_vals else values[0][3]
-            bad = [v for v in values if abs(v[3] - ref) > 1e-6 * max(ref, 1e-9) + 1e-9]
+            # (in a model in very small units the library's own absolute tolerance, 1e-7, is what a size can be held to)
+            atol = 2e-7 if program.get("meta", {}).get("scale") else 1e-9
+            bad = [v for v in values if abs(v[3] - ref) > 1e-6 * max(ref, 1e-9) + atol]
             if bad:
                 out.append(Violation("C04", "preserve-not-realised",
                                      f"{pres} of section {si} on {names[sb]}.a{sa} should be {ref:.8g}; realised {[(b, a, k, round(v, 8)) for (b, a, k, v) in bad[:4]]}"))
